@@ -442,7 +442,8 @@ def run_check(prop, tier, master, workers, runs_override=None, write=True):
             print(f"  violating runs of class {k[5:]}: {v}")
     print(
         f"{prop} tier={tier} seed={master} runs={runs} distinct_nontrivial={distinct} "
-        f"violations={len(new_viol)} known={sum(known_hits.values())} wall={time.time() - t0:.1f}s"
+        f"violations={len(new_viol)} known={sum(known_hits.values())} wall={time.time() - t0:.1f}s "
+        f"event_log_digest={logd.hexdigest()}"
     )
     return rc
 
